@@ -296,7 +296,11 @@ def withfield_case(draw):
                 api = "setitem_field"
     if api == "with_field" and where is not None and draw(st.integers(0, 3)) == 0:
         api = "setitem"           # ak.Array.__setitem__(name, value): documented to be ak.with_field applied in place
-    return {"mode": "with_field", "desc": desc, "where": where, "what": what, "api": api}
+    path = None
+    if api in ("with_field", "setitem") and where is not None and draw(st.integers(0, 2)) == 0:
+        # `where` spelled as a path: a one-element list / tuple, or ["a", where] with the generated array as field "a" of an outer record
+        path = draw(st.sampled_from(["list1", "tuple1", "nested", "nested"]))
+    return {"mode": "with_field", "desc": desc, "where": where, "what": what, "api": api, "path": path}
 
 
 def _has_missing_list(T, x):
@@ -715,6 +719,9 @@ def run_with_field(case):
     else:
         wa = A.Array(w) if what["k"] == "array" else w
         r = run.call("with_field", lambda: A.with_field(A.Array(lay), wa, where))
+    path = case.get("path")
+    if path is not None:
+        r = _with_field_path(run, A, lay, wa, where, path, api, vals, expected, label)
     if r[0] != "ok":
         raise Violation("refused:" + label, "%s raised %s for a value that broadcasts into the record structure: %s" % (api, r[0], str(r[1])[:300]), observed=list(r))
     Tr, Vr = run.read(r[1], api)
@@ -735,14 +742,52 @@ def run_with_field(case):
     if not same(Vg, FM.project(expected, newname)):
         raise Violation("value:" + label + "#read", "reading the new field does not give the broadcast value",
                         expected=M.jsonable(FM.project(expected, newname)), observed=M.jsonable(Vg))
+    # the declared keys: every other field once, in their old order, then the new one
+    oldnames = FM.names_of(R)
+    expkeys = None if (R[2] and where is None) else [n for n in oldnames if n != where] + [newname]
+    ks = run.call("keys", lambda: (r[1].layout if isinstance(r[1], A.Array) else r[1]).keys())
+    if ks[0] == "ok" and expkeys is not None and list(ks[1]) != expkeys:
+        raise Violation("type:" + label + "#keys", "the keys of the result are not the other fields followed by the new one",
+                        expected=expkeys, observed=list(ks[1]))
     run.purity()
     wr = wrappers_above_record(desc)
     nrec = _count_records(T, vals)
     nontrivial = nrec > 0 and len(R[1]) >= 2 and (len(wr) >= 1 or longer_contents(desc))
-    return {"tags": ["mode:with_field", "api:" + api, "what:" + what["k"] + (":level%d" % what["level"] if what["k"] == "array" else ""),
+    return {"tags": ["mode:with_field", "api:" + api, "path:" + str(path), "what:" + what["k"] + (":level%d" % what["level"] if what["k"] == "array" else ""),
                      "where:" + ("none" if where is None else ("existing" if where in FM.names_of(R) else "new")), "tuple" if R[2] else "named",
                      "fields:%d" % len(R[1])] + ["wrapper:" + x for x in sorted(set(wr))] + (["longer_contents"] if longer_contents(desc) else []),
             "nontrivial": bool(nontrivial), "sample_class": "with_field:" + what["k"]}
+
+
+def _with_field_path(run, A, lay, wa, where, path, api, vals, expected, label):
+    """the same assignment with `where` spelled as a path; returns ("ok", the array that has the fields of the generated record)"""
+    if path in ("list1", "tuple1"):
+        wh = [where] if path == "list1" else (where,)
+        if api == "setitem" and path == "tuple1":
+            arr = A.Array(lay)
+
+            def assign():
+                arr[wh] = wa
+                return arr
+            return run.call("setitem", assign)
+        return run.call("with_field", lambda: A.with_field(A.Array(lay), wa, wh))
+    n = len(lay)
+    outer = A.Array(L.RecordArray([L.NumpyArray(np.arange(n, dtype=np.int64)), lay], ["p", "a"]))
+    if api == "setitem":
+        def assign():
+            outer["a", where] = wa
+            return outer
+        r = run.call("setitem", assign)
+    else:
+        r = run.call("with_field", lambda: A.with_field(outer, wa, ["a", where]))
+    if r[0] != "ok":
+        return r
+    Vo = run.read(r[1], api)[1]
+    expo = [{"p": i, "a": e} for i, e in enumerate(expected)]
+    if not same(Vo, expo):
+        raise Violation("value:" + label + "#outer", "after %s with the path ['a', %r] the outer records are not {p: unchanged, a: the updated records}" % (api, where),
+                        expected=M.jsonable(expo), observed=M.jsonable(Vo))
+    return run.call("getitem_field", lambda: r[1]["a"])
 
 
 def _count_records(T, vals):
